@@ -87,6 +87,32 @@ TIER_OVERRIDES = {
     ("auto", "quick"): dict(MaxPend=1, EnvOn=["Tick", "PodArrive", "PodFinish", "AsgEdit", "CloudLaunch", "Register"]),
 }
 
+# configuration variants ("for every valid node-group configuration"): "<family>@<variant>" is the family with these overrides
+VARIANTS = {
+    "v2": dict(cfg=dict(soft=2, hard=3, cool=1, slow=0, fast=3, lower=10, upper=20, up=50, effect="NoExecute")),
+    "v3": dict(cfg=dict(slow=2, fast=2, lower=40, upper=60, up=100, maxAge=2), KM=1),
+    "v4": dict(cfg=dict(starve=True, lower=1, upper=50, up=120)),
+}
+
+
+def resolve(name, tier):
+    """family dict for "<family>" or "<family>@<variant>" at a tier"""
+    base, _, var = name.partition("@")
+    f = copy.deepcopy(FAMILIES[base])
+    f.update(copy.deepcopy(TIER_OVERRIDES.get((base, tier), {})))
+    if "cfg" in f:
+        f["CfgC"].update(f.pop("cfg"))
+    if var:
+        v = copy.deepcopy(VARIANTS[var])
+        if f.get("module") == "EscalatorMulti":
+            for g in f["CfgOf"]:
+                f["CfgOf"][g].update(v.get("cfg", {}))
+        else:
+            f["CfgC"].update(v.pop("cfg", {}))
+            f.update(v)
+    return f
+
+
 def tla_value(v):
     if isinstance(v, bool):
         return "TRUE" if v else "FALSE"
@@ -181,7 +207,6 @@ TIER_OVERRIDES[("multidry", "quick")] = dict(NodeIdsOf={"a": ["a1"], "default": 
 
 if __name__ == "__main__":
     import sys, os
-    f = copy.deepcopy(FAMILIES[sys.argv[1]])
-    f.update(TIER_OVERRIDES.get((sys.argv[1], os.environ.get("TIER", "thorough")), {}))
+    f = resolve(sys.argv[1], os.environ.get("TIER", "thorough"))
     f["PropIds"] = [os.environ["PROP"]] if os.environ.get("PROP") else ALLPROPS
     write_model(f, sys.argv[2])
